@@ -46,7 +46,8 @@ def run(prog, job: dict) -> dict:
             if cut == "torn":
                 raise PyRaise(ExtObj("exc:DecodeError", {"args": ("Truncated message.",)}), it.site)
 
-        inp = K.models.make_input(AIter(source(), "frames"), b"\x20\x0a\x05")
+        skw = {"seekable": {}, "raw-nonseekable": dict(seekable=False, buffered=False), "buffered-nonseekable": dict(seekable=False, buffered=False, user_buffered_reader=True)}[job.get("source", "seekable")]
+        inp = K.models.make_input(AIter(source(), "frames"), b"\x20\x0a\x05", **skw)
         mod = K.GP if integ == "generic" else K.RP
         got: list = []
         ended = "returned"
@@ -86,10 +87,13 @@ def check(chk: Check) -> None:
                 for integ in ("generic", "rdflib"):
                     for parser in ("parse_jelly_flat", "parse_jelly_grouped"):
                         jobs.append(dict(physical=physical, complete=j, cut=cut, integ=integ, parser=parser))
+                        if physical == 1 and j in (1, 2):
+                            for src in ("raw-nonseekable", "buffered-nonseekable"):
+                                jobs.append(dict(physical=physical, complete=j, cut=cut, integ=integ, parser=parser, source=src))
     for res in pmap(run, jobs):
         chk.functions.update(res["funcs"])
         jb = res["job"]
-        inst = f"{jb['integ']}.{jb['parser']} physical={jb['physical']} complete_frames={jb['complete']} then {jb['cut']}"
+        inst = f"{jb['integ']}.{jb['parser']} physical={jb['physical']} {jb.get('source', 'seekable')} source complete_frames={jb['complete']} then {jb['cut']}"
         construct = f"pyjelly.integrations.{jb['integ']}.parse.{jb['parser']}:lazy-prefix"
         for p in res["paths"]:
             chk.paths += 1
